@@ -47,6 +47,8 @@ func (e *Engine) StructuralObligations(want map[string]bool) ([]*Obligation, err
 				o.StructOK, o.StructMsg = checkLocksReleased(c.Fn)
 			case "no_package_state":
 				o.StructOK, o.StructMsg = e.checkNoPackageState(c.Fn, sc.Args)
+			case "pool_put_releases":
+				o.StructOK, o.StructMsg = checkPoolPutReleases(c.Fn, sc.Args)
 			case "chan_buffered":
 				o.StructOK, o.StructMsg = checkChanBuffered(c.Fn, sc.Args)
 			case "sends_selectable":
@@ -1129,4 +1131,122 @@ func (e *Engine) checkNoPackageState(fn *ssa.Function, allowed []string) (bool, 
 		bad = append(bad[:6], "...")
 	}
 	return false, "uses package-level state: " + strings.Join(bad, ", ")
+}
+
+// checkPoolPutReleases <field>: an object that the function hands to a sync.Pool (Put) after loading it from the
+// receiver's <field> must no longer be referenced from that field when the function returns -- on every path through a
+// Put the field is overwritten with nil. (The next user of the pool would otherwise share the object with this owner.)
+// Dataflow: mayPut is a may-fact (joined with OR), cleared is a must-fact (joined with AND); checked at every return.
+func checkPoolPutReleases(fn *ssa.Function, args []string) (bool, string) {
+	if len(args) != 1 {
+		return false, "pool_put_releases needs the field name"
+	}
+	field := args[0]
+	isField := func(v ssa.Value) bool {
+		fa, ok := v.(*ssa.FieldAddr)
+		return ok && fieldNameOf(fa) == field
+	}
+	var from func(v ssa.Value, depth int) bool
+	from = func(v ssa.Value, depth int) bool {
+		if depth > 8 {
+			return false
+		}
+		switch v := v.(type) {
+		case *ssa.MakeInterface:
+			return from(v.X, depth+1)
+		case *ssa.ChangeType:
+			return from(v.X, depth+1)
+		case *ssa.Phi:
+			for _, ed := range v.Edges {
+				if from(ed, depth+1) {
+					return true
+				}
+			}
+		case *ssa.UnOp:
+			if v.Op != token.MUL {
+				return false
+			}
+			if isField(v.X) {
+				return true
+			}
+			if al, ok := v.X.(*ssa.Alloc); ok && al.Referrers() != nil {
+				for _, r := range *al.Referrers() {
+					if st, ok := r.(*ssa.Store); ok && st.Addr == al && from(st.Val, depth+1) {
+						return true
+					}
+				}
+			}
+		}
+		return false
+	}
+	type fact struct{ mayPut, cleared bool }
+	puts := 0
+	transfer := func(b *ssa.BasicBlock, in fact) (fact, string) {
+		cur := in
+		for _, instr := range b.Instrs {
+			switch instr := instr.(type) {
+			case *ssa.Call:
+				if f := staticFn(&instr.Call); f != nil && f.Pkg != nil && f.Pkg.Pkg.Path() == "sync" && f.Name() == "Put" && len(instr.Call.Args) == 2 && from(instr.Call.Args[1], 0) {
+					cur.mayPut = true
+					cur.cleared = false
+					puts++
+				}
+			case *ssa.Store:
+				if isField(instr.Addr) {
+					if c, ok := instr.Val.(*ssa.Const); ok && c.IsNil() {
+						cur.cleared = true
+					} else {
+						cur.cleared = false
+					}
+				}
+			case *ssa.Return:
+				if cur.mayPut && !cur.cleared {
+					return cur, "returns with ." + field + " still referencing an object that was put into a pool"
+				}
+			}
+		}
+		return cur, ""
+	}
+	out := map[*ssa.BasicBlock]fact{}
+	seen := map[*ssa.BasicBlock]bool{}
+	msg := ""
+	for iter, changed := 0, true; changed && iter < 60; iter++ {
+		changed = false
+		for _, b := range fn.Blocks {
+			in := fact{cleared: true}
+			first := true
+			for _, p := range b.Preds {
+				if !seen[p] {
+					continue
+				}
+				po := out[p]
+				if first {
+					in, first = po, false
+				} else {
+					in.mayPut = in.mayPut || po.mayPut
+					in.cleared = in.cleared && po.cleared
+				}
+			}
+			if b != fn.Blocks[0] && first {
+				continue // not reached yet
+			}
+			if b == fn.Blocks[0] {
+				in = fact{}
+			}
+			no, m := transfer(b, in)
+			if m != "" {
+				msg = m
+			}
+			if !seen[b] || out[b] != no {
+				seen[b], out[b], changed = true, no, true
+			}
+		}
+	}
+	if msg != "" {
+		return false, msg
+	}
+	if puts == 0 {
+		return false, "CONTRACT-STALE pool_put_releases: no Put of a value loaded from ." + field + " found"
+	}
+	return true, ""
 }
